@@ -179,6 +179,44 @@ def dag_spec(draw, max_models=5, kinds=None, with_thru=True, offsets=True, max_c
     }
 
 
+@st.composite
+def chain_spec(draw, min_n=6, max_n=12, kinds=("scale", "cb", "next", "prev", "lin", "dfix")):
+    """one long dependency path M0 -> M1 -> ... -> M(n-1) (optionally through pull-based components), listed
+    sink-first, source-first, interleaved or at random: the number of connect rounds and the depth of the driver's
+    dependency walk grow with n and depend on the listing order"""
+    n = draw(st.integers(min_n, max_n))
+    names = [f"M{i}" for i in range(n)]
+    comps, links, excl = [], [], []
+    thr = 0
+    for i in range(1, n):
+        chain, e = sanitize(draw(st.lists(adapter(list(kinds)), max_size=1)), False)
+        excl += e
+        if draw(st.integers(0, 6)) == 0:
+            tn = f"T{thr}"
+            thr += 1
+            comps.append({"kind": "thru", "name": tn})
+            links.append([names[i - 1], "o", chain, tn, "In"])
+            links.append([tn, "Out", [], names[i], "i0"])
+        else:
+            links.append([names[i - 1], "o", chain, names[i], "i0"])
+    for i, m in enumerate(names):
+        comps.append({"kind": "model", "name": m, "start": 0, "steps": draw(st.lists(st.integers(1, 4), min_size=1, max_size=2)),
+                      "ins": ["i0"] if i else [], "outs": ["o"], "after_data": bool(i) and draw(st.integers(0, 3)) > 0})
+    allnames = [c["name"] for c in comps]
+    mode = draw(st.sampled_from(["sink-first", "sink-first", "source-first", "interleaved", "random"]))
+    path = names + [c["name"] for c in comps if c["kind"] == "thru"]
+    if mode == "sink-first":
+        order = path[::-1]
+    elif mode == "source-first":
+        order = path
+    elif mode == "interleaved":
+        order = path[::2][::-1] + path[1::2]
+    else:
+        order = list(draw(st.permutations(allnames)))
+    return {"comps": comps, "links": [list(l) for l in draw(st.permutations(links))], "order": order,
+            "end": draw(st.integers(4, 16)), "excluded": excl + [f"info:long-chain-{mode}"], "tick_us": draw(TICKS)}
+
+
 RING_MODES = ["none", "suff", "suff_split", "suff_multi", "dpush", "partial"]
 
 
